@@ -7,21 +7,21 @@ for log in sys.argv[1:]:
     for line in open(log):
         m = re.match(r'MUTANT (\S+)/(C\d\d) #(\d): suite-with=\[(.*?)\] demo-with=\[(.*?)\] demo-without=\[(.*?)\]', line)
         if m:
-            key = (m.group(2), m.group(3))
+            key = (m.group(1), m.group(2), m.group(3))
             r = res.setdefault(key, {"src": m.group(1) + "/" + m.group(2), "checks": {}})
             r["verify"] = {"suite_with_change": m.group(4).split()[0], "demo_with_change": m.group(5).split()[0], "demo_without_change": m.group(6).split()[0]}
             continue
         m = re.match(r'MUTANT (\S+)/(C\d\d) #(\d) check (C\d\d) exit=(\d+): (\d+) violation lines; (.*)', line)
         if m:
-            key = (m.group(2), m.group(3))
+            key = (m.group(1), m.group(2), m.group(3))
             r = res.setdefault(key, {"src": m.group(1) + "/" + m.group(2), "checks": {}})
             r["checks"][m.group(4)] = {"exit": int(m.group(5)), "violation_lines": int(m.group(6)), "summary": m.group(7).strip()[:400]}
-for (prop, i), r in sorted(res.items()):
+for (srcroot, prop, i), r in sorted(res.items()):
     v = r.get("verify")
     if not v or v["suite_with_change"] != "ok" or v["demo_with_change"] != "FAIL" or v["demo_without_change"] != "ok":
         print("NOT CONFIRMED", prop, i, v)
         continue
-    sid = f"{prop}-m{i}"
+    sid = ("R2-" if "out2" in srcroot else "") + f"{prop}-m{i}"
     d = os.path.join('/verif/seeded', sid)
     os.makedirs(d, exist_ok=True)
     shutil.copy(os.path.join(r["src"], f'mutant{i}.patch'), os.path.join(d, 'patch.diff'))
